@@ -643,7 +643,7 @@ impl<'r> Gen<'r> {
                     self.op(".");
                     // after a dot every word is an identifier, even reserved ones such as `Create`
                     if self.rng.chance(1, 8) {
-                        let w = *self.rng.pick(&["Create", "Free", "ToString", "Name", "Index", "Read", "Count", "Items"]);
+                        let w = *self.rng.pick(&["Create", "Free", "ToString", "Name", "Index", "Read", "Count", "Items", "asm", "Asm", "type", "&asm"]);
                         self.push(w, if SOFT_IDENTS.contains(&w) { GK::SoftIdent } else { GK::Ident });
                     } else {
                         self.plain_ident();
@@ -1232,12 +1232,17 @@ impl<'r> Gen<'r> {
                 let n = self.rng.range(1, 4);
                 for _ in 0..n {
                     let lab = self.p.toks.len();
-                    let m = self.rng.range(1, 3);
+                    let long_labels = self.rng.chance(1, 4);
+                    let m = if long_labels { self.rng.range(2, 4) } else { self.rng.range(1, 3) };
                     for k in 0..m {
                         if k > 0 {
                             self.op(",");
                         }
-                        if self.rng.chance(1, 4) {
+                        if long_labels {
+                            // enumeration-style labels: the arm header is long enough to need wrapping
+                            let w = *self.rng.pick(&["LabelAlpha", "LabelBravo", "LabelCharlie", "kDelta", "EnumValueEcho", "fkFoxtrotGolf"]);
+                            self.push(w, GK::Ident);
+                        } else if self.rng.chance(1, 4) {
                             self.number_small();
                             self.op("..");
                             self.number_small();
